@@ -467,6 +467,9 @@ def run(res, tier, seed):
     c02.mc_laws(res, tier, wd)
     exec_progs = exec_model(res, wd, quick, random.Random(seed + 17))
     docs = c02.make_docs(rng, 6 if quick else 40)
+    # a document whose nodes NAME documents (document() with a node-set argument, 12.1: the union of the documents its nodes name)
+    docs.append(xdm.R(xdm.E("a", xdm.E("b", xdm.T("d2.xml")), xdm.E("b", xdm.T("d3.xml")), xdm.E("b", xdm.T("d2.xml")), xdm.E("c", xdm.T("d3.xml"), a=[xdm.A("x", "d2.xml"), xdm.A("y", "d2.xml")]))))
+    refs_doc_ix = len(docs) - 1
     docs.append(xslgen.exec_doc(5))
     exec_doc_ix = len(docs) - 1
     flats = [xdm.flatten(t, c02.ID_ATTRS) for t in docs]
@@ -493,6 +496,8 @@ def run(res, tier, seed):
         else:
             ss = xslgen.XslGen(rng).stylesheet()
         d = rng.randrange(len(docs) - 1)                  # (the last document is the executor family's)
+        if ss.get("refs"):
+            d = refs_doc_ix
         if (fam == "rtfcompare" or (not fam and k % 10 == 6 and k % 5 != 4)) and rng.random() < 0.8:
             d = 3                                     # the corpus document whose text values look like numbers
         cdir = os.path.join(wd, "case%d" % k); os.makedirs(cdir)
